@@ -15,6 +15,11 @@ node, in arrival order) and the client outcome: equal to the trace of a referenc
 the same text (and keyspace where the protocol carries it), then the original EXECUTE again on that host; on id
 mismatch / keyspace mismatch / PREPARE error / silence the request fails with that error and NO further frame for it
 reaches any node; on connection loss during PREPARE it moves on along the plan; the future completes exactly once.
+
+A second family (every fifth history) has a PREPARE answer arrive AFTER the request failed: two re-prepare flows at once
+(idempotent statement, speculative execution on a second host, both hosts answer UNPREPARED; one PREPARE answer fails
+the request, the other host's successful answer is delivered afterwards), or the client timeout firing while the
+PREPARE is outstanding.  Same oracle: nothing is sent for a request that has failed.
 """
 import hashlib
 import random
@@ -241,6 +246,163 @@ def run_history(seed):
     return viol, harness, infos
 
 
+def run_late_history(seed):
+    """A PREPARE answer that arrives after the request has already FAILED must not make the driver send anything.
+    two-flow: idempotent statement + speculative execution, EXECUTE outstanding on two hosts, both answer UNPREPARED, a PREPARE goes
+    to each; one PREPARE answer fails the request (other id / error), the other host's successful answer is delivered afterwards.
+    timeout: single flow, the client timeout fires while the PREPARE is outstanding, then the (successful) answer arrives."""
+    from sim.env import SimEnv
+    from sim import world as W
+    from sim.scen import Plan, Recorder, echoed_uid, uid_query
+    from sim import s2_common as C
+    from spec import frames as F
+    from cassandra import OperationTimedOut, DriverException
+    from cassandra.cluster import ExecutionProfile, EXEC_PROFILE_DEFAULT, NoHostAvailable
+    from cassandra.policies import ConstantReconnectionPolicy, ConstantSpeculativeExecutionPolicy
+
+    rng = random.Random(seed)
+    random.seed(seed)
+    variant = rng.choice(['two-flow', 'two-flow', 'two-flow', 'timeout'])
+    n = rng.choice([2, 3]) if variant == 'two-flow' else rng.choice([1, 2])
+    addrs = ['127.0.0.%d' % (i + 1) for i in range(n)]
+    proto = rng.choice([3, 4, 4, 0x42])
+    ch = W.RandomChooser(random.Random(seed * 23 + 9), p_time=0.0, p_preempt=rng.choice([0.0, 0.0, 0.1, 0.3]))
+    env = SimEnv(W.PrefixChooser([]), addresses=addrs)
+    plan = Plan()
+    uid = 1
+    text = uid_query(uid, ' WHERE k = %d' % rng.randint(0, 99))
+    script = {}
+    armed = [False]
+    spec_delay = 0.2
+
+    def behaviour(node, cstate, req):
+        if req['op'] == 'PREPARE' and armed[0] and req['query'] == text:
+            plan.behaviour(node, cstate, req)
+            r = script.get(node.address, 'same')
+            if r == 'same':
+                return None
+            if r == 'same-held':
+                return ('hold', node.default_reaction(cstate, req)[1])
+            if r == 'diff':
+                other = hashlib.md5(b'another statement ' + text.encode()).digest()
+                plan.prepared[other] = text
+                return node.reply(cstate, req, 'RESULT', F.body_result_prepared(req['version'], other, [], [], [], b'\x00' * 16,
+                                                                                 result_md={'global_spec': False}))
+            return node.error(cstate, req, r[1], 'scripted %s' % r[1])
+        return plan.behaviour(node, cstate, req)
+
+    def held_unprepared(node, cstate, req, uid_):
+        return ('hold', node.error(cstate, req, 'unprepared', 'unprepared', query_id=req['query_id'])[1])
+
+    for nd in env.net.nodes.values():
+        nd.behaviour = behaviour
+    lbp = C.make_fixed_plan_policy()
+    pol = C.make_oracle_retry_policy(script=[])
+    viol, infos = [], []
+
+    def release(pred):
+        hit = [h for h in env.net.held if not h.done and pred(h)]
+        for h in hit:
+            h.release()
+        env.world.settle(advance=False)
+        return len(hit)
+
+    with env:
+        prof = ExecutionProfile(load_balancing_policy=lbp, retry_policy=pol,
+                                speculative_execution_policy=ConstantSpeculativeExecutionPolicy(spec_delay, 1) if variant == 'two-flow' else None)
+        cluster = env.cluster(protocol_version=proto, reconnection_policy=ConstantReconnectionPolicy(5000.0),
+                              execution_profiles={EXEC_PROFILE_DEFAULT: prof})
+        session = C.connect_deterministically(env, cluster, ch)
+        rec = Recorder(env.world)
+        ps = session.prepare(text)
+        env.world.settle(advance=False)
+        order = rng.sample(addrs, n)
+        cl = rng.choice(C.CLS)
+        bound = ps.bind(())
+        bound.consistency_level = cl
+        mark = len(env.net.wire_log)
+        steps_ok = True
+        if variant == 'two-flow':
+            a_host, b_host = order[0], order[1]
+            failing = rng.choice([a_host, b_host])
+            late = b_host if failing == a_host else a_host
+            fail_how = rng.choice(['diff', 'diff', ('error', rng.choice(PREPARE_ERRORS))])
+            script[failing] = fail_how
+            script[late] = 'same-held'
+            plan.set(uid, [held_unprepared, held_unprepared, 'rows'])
+            bound.is_idempotent = True
+            armed[0] = True
+            lbp.order = list(order)
+            with env.world.inspect():
+                rec.execute_async(session, uid, statement=bound, timeout=20.0)
+            env.world.settle(advance=False)
+            env.world.advance_to(env.world.now + spec_delay * 2 + 0.05)      # the speculative execution goes to the second host
+            env.world.settle(advance=False)
+            # UNPREPARED from the host whose PREPARE will be answered late, then from the one whose PREPARE fails the request
+            steps_ok &= release(lambda h: h.req['op'] == 'EXECUTE' and h.node.address == late) == 1
+            steps_ok &= release(lambda h: h.req['op'] == 'EXECUTE' and h.node.address == failing) == 1
+            with env.world.inspect():
+                outs_before = len(rec.outcomes(uid))
+            steps_ok &= release(lambda h: h.req['op'] == 'PREPARE' and h.node.address == late) == 1     # the late, successful answer
+            frames = [('EXECUTE', a_host), ('EXECUTE', b_host), ('PREPARE', late), ('PREPARE', failing)]
+            outcome = ('mismatch',) if fail_how == 'diff' else ('prepare-error', fail_how[1])
+            outs_before_time = 0
+            label = 'two-flow:%s' % (fail_how if isinstance(fail_how, str) else fail_how[1])
+        else:
+            a_host = order[0]
+            script[a_host] = 'same-held'
+            plan.set(uid, ['unprepared', 'rows'])
+            armed[0] = True
+            lbp.order = list(order)
+            with env.world.inspect():
+                rec.execute_async(session, uid, statement=bound, timeout=REQUEST_TIMEOUT)
+            env.world.settle(advance=False)
+            with env.world.inspect():
+                outs_before_time = len(rec.outcomes(uid))
+            env.world.advance_to(env.world.now + REQUEST_TIMEOUT + 0.5)      # client timeout while the PREPARE is outstanding
+            env.world.settle(advance=False)
+            with env.world.inspect():
+                outs_before = len(rec.outcomes(uid))
+            steps_ok &= release(lambda h: h.req['op'] == 'PREPARE' and h.node.address == a_host) == 1
+            frames = [('EXECUTE', a_host), ('PREPARE', a_host)]
+            outcome = ('timeout',)
+            label = 'timeout-then-answer'
+        env.world.advance_to(env.world.now + 1.0)
+        env.world.settle(advance=False)
+        lbp.order = None
+        with env.world.inspect():
+            obs = []
+            for q in env.net.wire_log[mark:]:
+                if q['op'] == 'EXECUTE' and q.get('query_id') == ps.query_id:
+                    obs.append(('EXECUTE', q['_node'], q.get('consistency'), None, None))
+                elif q['op'] == 'PREPARE' and q.get('query') == text:
+                    obs.append(('PREPARE', q['_node'], None, q.get('keyspace'), q.get('query')))
+                elif q['op'] == 'PREPARE':
+                    obs.append(('PREPARE-OTHER-TEXT', q['_node'], None, q.get('keyspace'), q.get('query')))
+            outs = rec.outcomes(uid)
+            info = dict(seed=seed, proto=proto, nodes=n, plan=order, keyspace_scenario='none', prepare_answer='late-answer:' + label,
+                        execute_answers=['unprepared'] * (2 if variant == 'two-flow' else 1), node_trace=[(o[0], o[1], o[3]) for o in obs],
+                        expected_trace=frames, expected_outcome=outcome[:2], outcomes=[(o[0], repr(o[3])[:200]) for o in outs],
+                        completed_before_late_answer=outs_before, late=True)
+            got = [(o[0], o[1]) for o in obs]
+            if not steps_ok or got[:len(frames)] != frames or outs_before != 1:
+                # the scripted situation (request failed, one PREPARE answer still to come) was not reached: nothing to judge here
+                info['situation_reached'] = False
+            else:
+                info['situation_reached'] = True
+                v = judge(C, obs, outs, frames, outcome, None, False, proto == 0x42, 'none', text, cl, uid, echoed_uid,
+                          dict(NoHostAvailable=NoHostAvailable, OperationTimedOut=OperationTimedOut, DriverException=DriverException), outs_before_time)
+                for mech, what in v:
+                    viol.append((mech, what, info))
+            infos.append(info)
+        pol.closed = True
+        harness = C.harness_problems(env)
+        env.world.preempt = False
+        cluster.shutdown()
+        env.world.settle()
+    return viol, harness, infos
+
+
 def judge(C, obs, outs, frames, outcome, reaction, natural_mismatch, carries_ks, ksmode, text, cl, uid, echoed_uid, X, outs_before_time):
     v = []
     got = [(o[0], o[1]) for o in obs]
@@ -339,6 +501,8 @@ def run(ctx):
     ctx.assume("an ERROR answer to the re-PREPARE fails the request with that error (what the driver documents in _execute_after_prepare); "
                "a connection lost during the re-PREPARE moves the request to the next host of the plan")
     ctx.assume("PreparedStatement.keyspace on v3/v4 is set by the harness (session.prepare cannot produce it on these versions)")
+    ctx.assume("a late PREPARE answer is only generated after the request FAILED; what the driver does with one that arrives after the request "
+               "succeeded through another execution is not stated by the property and is not judged")
     n = ctx.scale(1500, 60000)
     budget = 35 if ctx.quick else 300
     base = ctx.seed * 1000003 + (ctx.worker or 0) * 100003
@@ -350,7 +514,7 @@ def run(ctx):
             break
         seed = base + i
         try:
-            viol, harness, infos = run_history(seed)
+            viol, harness, infos = run_late_history(seed) if i % 5 == 4 else run_history(seed)
         except WorldLimit:
             ctx.count("histories_over_budget")
             continue
@@ -370,6 +534,8 @@ def run(ctx):
             ctx.count("keyspace_scenario_" + q['keyspace_scenario'])
             if q['proto'] == 0x42:
                 ctx.count("histories_on_keyspace_carrying_protocol")
+            if q.get('late'):
+                ctx.count("late_prepare_answer_histories_judged" if q['situation_reached'] else "late_prepare_answer_situation_not_reached")
             if len(ctx.samples) < 5 and len(q['node_trace']) >= 3:
                 ctx.sample(q)
         seen = set()
@@ -381,4 +547,5 @@ def run(ctx):
     ctx.floor_distinct = 120 if ctx.quick else 1500
     ctx.floor_counters = {"histories": 150, "reprepares_observed": 100, "executes_resent_after_reprepare": 40, "outcome_mismatch": 15,
                           "outcome_ok": 20, "outcome_prepare-error": 10, "outcome_timeout": 5, "outcome_valueerror": 5, "outcome_nohost": 3,
-                          "histories_on_keyspace_carrying_protocol": 20, "keyspace_scenario_param": 3}
+                          "histories_on_keyspace_carrying_protocol": 20, "keyspace_scenario_param": 3,
+                          "late_prepare_answer_histories_judged": 20}
